@@ -111,6 +111,13 @@ func gen(r *rand.Rand, long bool) *common.History {
 		remotes = []ep{{0x05060708, 5678}, {0x05060750, 5678}, {0x05060708, 56780}, {0x05060708, 567}, {0x05060755, 5678}, {wanBase + 0x50, 80}}
 		h.Tags = append(h.Tags, "textual_prefix_remotes")
 	}
+	if r.IntN(4) == 0 {
+		// keys that coincide once separators are dropped: local port ...1234 + remote 5.6.7.8 / local port ...123 + remote 45.6.7.8,
+		// and local x.x.x.2:11 + ... / x.x.x.21:1
+		internals = []ep{{lanBase + 0x02, 1234}, {lanBase + 0x02, 123}, {lanBase + 0x02, 11}, {lanBase + 0x15, 1}, {lanBase + 0x65, 1000}}
+		remotes = []ep{{0x05060708, 80}, {0x2D060708, 80}, {0x05060708, 8}, {0x05060708, 808}, {0x2D060708, 8}, {wanBase + 0x50, 80}}
+		h.Tags = append(h.Tags, "separator_collision_endpoints")
+	}
 	var external []ep // addresses handed out so far
 	now := int64(0)
 	nops := 30 + r.IntN(60)
